@@ -418,6 +418,9 @@ func (r *Reliable) receive(pkt *frame) error {
 		case finWait1:
 			r.tubeState = closing
 			r.log.Debug("got FIN packet. going from finWait1 to closing")
+			// Both FINs have been sent. As in lastAck, only the ACK of our FIN
+			// is missing, and the peer may already be gone when it gets lost.
+			r.startLastAckTimer()
 		case finWait2:
 			r.log.Debug("got FIN packet. going from finWait2 to closed")
 			r.sender.sendEmptyPacket()
@@ -440,6 +443,11 @@ func (r *Reliable) receive(pkt *frame) error {
 // +checklocks:r.l
 func (r *Reliable) enterLastAckState() {
 	r.tubeState = lastAck
+	r.startLastAckTimer()
+}
+
+// +checklocks:r.l
+func (r *Reliable) startLastAckTimer() {
 	r.lastAckTimer = time.AfterFunc(4*r.sender.RTT, func() {
 		r.l.Lock()
 		defer r.l.Unlock()
